@@ -105,3 +105,10 @@ def concretize(v, subst):
     if isinstance(v, (list, tuple)):
         return type(v)(concretize(x, subst) for x in v)
     return v
+
+
+def mod(name):
+    """the module object (not an attribute of the same name in the parent package)"""
+    import importlib
+
+    return importlib.import_module(name)
